@@ -137,7 +137,7 @@ type attemptObs struct {
 	MapperErr bool
 }
 
-func (ob *attemptObs) reached() bool { ob.mu.Lock(); defer ob.mu.Unlock(); return ob.Reached }
+func (ob *attemptObs) reached() bool  { ob.mu.Lock(); defer ob.mu.Unlock(); return ob.Reached }
 func (ob *attemptObs) reader() string { ob.mu.Lock(); defer ob.mu.Unlock(); return ob.Reader }
 
 type attemptOpts struct {
@@ -176,6 +176,12 @@ func runAttempt(c *core.Ctx, s *run.Session, l *hist.Layout, start hist.Pos, spe
 	plan := sim.Plan(l, start)
 	ob.PlanLen = len(plan)
 	scr := &sim.Script{End: sim.EndEOF, LockStep: spec.Lock, Faults: map[int]sim.Fault{}}
+	if r != nil && r.Chance(1, 4) {
+		// seeded micro-delays between packets: schedule diversity only
+		for i := 0; i < 7; i++ {
+			scr.MicroDelays = append(scr.MicroDelays, []int{0, 0, 0, 20, 80, 300}[r.Intn(6)])
+		}
+	}
 	hs := run.NoFaults()
 	hs.InlineError = o.InlineError
 	hs.SlowUS = spec.Slow
